@@ -29,6 +29,7 @@ import (
 	"github.com/tikv/pd/server/versioninfo"
 	"go.uber.org/zap"
 	"pdverif/vkit"
+	"pdverif/vkit/faultkv"
 	"pgregory.net/rapid"
 )
 
@@ -62,6 +63,12 @@ type Ev struct {
 //	uver   same id, version-1                     -> must be rejected
 //	uover  fresh id, overlapping, version below the newest overlapped region -> must be rejected
 //	eqver  fresh id, overlapping, version equal to the newest overlapped region -> not "older", accepted
+//
+// seq only: K=="fail" arms a clean failure of the (1+A%3)-th storage write of the next
+// heartbeat (the heartbeat itself still succeeds, storage lags); K=="restart" replaces
+// the RaftCluster: A%2==0 cold (fresh BasicCluster, same storage, LoadClusterInfo = PD
+// restart), A%2==1 warm (same BasicCluster and storage, LoadClusterInfo = re-election
+// with use-region-storage=false). The history continues on the new object.
 type Dl struct {
 	K string `json:"k"`
 	I int    `json:"i"`
@@ -96,7 +103,7 @@ type ConcCase struct {
 
 var evKinds = []string{"split", "split", "split", "merge", "merge", "add", "promote", "remove", "transfer", "term", "beat"}
 
-func genBase(t *rapid.T, maxEv int) Case {
+func genBase(t *rapid.T, maxEv int, faults bool) Case {
 	var c Case
 	c.Stores = rapid.IntRange(3, 6).Draw(t, "stores")
 	c.Collide = rapid.IntRange(0, 5).Draw(t, "collide") == 0
@@ -151,6 +158,20 @@ func genBase(t *rapid.T, maxEv int) Case {
 	}
 	sort.SliceStable(items, func(a, b int) bool { return items[a].key < items[b].key })
 	for _, it := range items {
+		if faults {
+			switch rapid.IntRange(0, 39).Draw(t, "fault") {
+			case 0, 1, 2, 3:
+				c.Dels = append(c.Dels, Dl{K: "fail", A: rapid.SampledFrom([]int{0, 0, 0, 1, 1, 2}).Draw(t, "failNth")})
+			case 4:
+				c.Dels = append(c.Dels, Dl{K: "restart", A: rapid.IntRange(0, 1).Draw(t, "warm")})
+			case 5:
+				// a failed write directly followed by a restart
+				c.Dels = append(c.Dels, Dl{K: "fail", A: rapid.SampledFrom([]int{0, 0, 0, 1, 1, 2}).Draw(t, "failNth")})
+				c.Dels = append(c.Dels, it.d)
+				c.Dels = append(c.Dels, Dl{K: "restart", A: rapid.IntRange(0, 1).Draw(t, "warm")})
+				continue
+			}
+		}
 		c.Dels = append(c.Dels, it.d)
 		if rapid.IntRange(0, 11).Draw(t, "fab") == 0 {
 			c.Dels = append(c.Dels, Dl{
@@ -163,10 +184,10 @@ func genBase(t *rapid.T, maxEv int) Case {
 	return c
 }
 
-func genSeq(t *rapid.T) Case { return genBase(t, 80) }
+func genSeq(t *rapid.T) Case { return genBase(t, 80, true) }
 
 func genConc(t *rapid.T) ConcCase {
-	c := ConcCase{Case: genBase(t, 60)}
+	c := ConcCase{Case: genBase(t, 60, false)}
 	c.Poll = rapid.IntRange(1, 2).Draw(t, "pollers")
 	style := rapid.IntRange(0, 9).Draw(t, "style")
 	left := len(c.Dels)
@@ -195,11 +216,13 @@ func genConc(t *rapid.T) ConcCase {
 
 type fixture struct {
 	cancel  context.CancelFunc
+	opt     *config.PersistOptions
 	rc      *cluster.RaftCluster
 	bc      *core.BasicCluster
-	storage *core.Storage
-	mem     kv.Base
-	fresh   uint64 // ids of fabricated regions, far away from the simulator's counter
+	storage *core.Storage // over fkv
+	fkv     *faultkv.KV   // fault injector between the storage and mem
+	mem     kv.Base       // the oracle reads here
+	fresh   uint64        // ids of fabricated regions, far away from the simulator's counter
 }
 
 func newFixture(stores int) (*fixture, error) {
@@ -211,17 +234,50 @@ func newFixture(stores int) (*fixture, error) {
 	opt.SetClusterVersion(versioninfo.MinSupportedVersion(versioninfo.Version2_0))
 	ctx, cancel := context.WithCancel(context.Background())
 	mem := kv.NewMemoryKV()
-	f := &fixture{cancel: cancel, mem: mem, storage: core.NewStorage(mem), bc: core.NewBasicCluster(), fresh: 1 << 40}
+	fkv := faultkv.New(mem)
+	f := &fixture{cancel: cancel, opt: opt, mem: mem, fkv: fkv, storage: core.NewStorage(fkv), bc: core.NewBasicCluster(), fresh: 1 << 40}
 	f.rc = cluster.NewRaftCluster(ctx, "", 1, nil, nil, nil)
 	f.rc.InitCluster(mockid.NewIDAllocator(), opt, f.storage, f.bc)
-	for i := 1; i <= stores; i++ {
-		f.bc.PutStore(core.NewStoreInfo(&metapb.Store{Id: uint64(i), Address: fmt.Sprintf("127.0.0.1:%d", i),
-			State: metapb.StoreState_Up, Version: "4.0.0"}))
+	// a bootstrapped cluster: meta and stores are persisted (LoadClusterInfo needs them)
+	if err := f.storage.SaveMeta(&metapb.Cluster{Id: 1, MaxPeerCount: 3}); err != nil {
+		cancel()
+		return nil, err
 	}
+	for i := 1; i <= stores; i++ {
+		st := &metapb.Store{Id: uint64(i), Address: fmt.Sprintf("127.0.0.1:%d", i), State: metapb.StoreState_Up, Version: "4.0.0"}
+		if err := f.storage.SaveStore(st); err != nil {
+			cancel()
+			return nil, err
+		}
+		f.bc.PutStore(core.NewStoreInfo(st))
+	}
+	fkv.ResetCounters()
 	return f, nil
 }
 
 func (f *fixture) close() { f.cancel() }
+
+// restart replaces the RaftCluster the way a PD restart (cold: empty cache) or a won
+// leader election without region storage (warm: the cache object survives) does:
+// InitCluster + LoadClusterInfo on the same storage.
+func (f *fixture) restart(cold bool) error {
+	ctx, cancel := context.WithCancel(context.Background())
+	bc := f.bc
+	if cold {
+		bc = core.NewBasicCluster()
+	}
+	rc := cluster.NewRaftCluster(ctx, "", 1, nil, nil, nil)
+	rc.InitCluster(mockid.NewIDAllocator(), f.opt, f.storage, bc)
+	got, err := rc.LoadClusterInfo()
+	if err != nil || got == nil {
+		cancel()
+		return fmt.Errorf("LoadClusterInfo = %v, %v", got != nil, err)
+	}
+	old := f.cancel
+	f.rc, f.bc, f.cancel = rc, bc, cancel
+	old()
+	return nil
+}
 
 func (h *hb) metaPB() *metapb.Region {
 	m := &metapb.Region{Id: h.ID, StartKey: []byte(h.Start), EndKey: []byte(h.End),
